@@ -737,7 +737,39 @@ class ZInt(z3.ArithRef):
     def __floordiv__(self, o):
         return ZInt((SInt(self._plain()) // o).t)
 
+    def __eq__(self, o):
+        r = z3.ArithRef.__eq__(self, o)
+        return ZBool(r) if isinstance(o, int) and not isinstance(o, bool) else r
+
+    def __ne__(self, o):
+        r = z3.ArithRef.__ne__(self, o)
+        return ZBool(r) if isinstance(o, int) and not isinstance(o, bool) else r
+
     __hash__ = z3.ArithRef.__hash__
+
+
+class ZBool(z3.BoolRef):
+    """`shape entry == python int` as the analysed code sees it: a z3 formula whose truth value, when python asks for it
+    (`if n_chains == 1`), is decided by the path condition / forks the path (z3's own __bool__ compares the two sides structurally)"""
+
+    def __init__(self, t):
+        z3.BoolRef.__init__(self, t.as_ast(), t.ctx)
+
+    def __bool__(self):
+        return cur().branch(z3.BoolRef(self.as_ast(), self.ctx))
+
+
+def tolerant(h):
+    """a proof-script hook must never turn a run into an engine error: when the code no longer has the shape the script was
+    written for, the ghost help is dropped (later obligations may stay open = undecided) and the path condition is restored"""
+    def g(vc, rec):
+        mark, full = len(vc.pc), vc.pc
+        try:
+            h(vc, rec)
+        except (OutOfSubset, KeyError, IndexError, AttributeError, TypeError):
+            vc.pc = full
+            del vc.pc[mark:]
+    return g
 
 
 def fcut(vc, name, goal, hyps):
@@ -1017,6 +1049,10 @@ class GelmanRubin(Contract):
             vc.assume(L)                    # LemmaMonotoneCum
             H['SB>=0'] = fcut(vc, 'a sum of squares is non-negative', SB(m) >= 0, [L, F_nn.q, R_['D_SB']] + G0)
         mean_inst = lambda vc, r0: [H[0].inst(vc, r0)]
+        return {k_: tolerant(h_) for k_, h_ in self._script(row_sums, vec_sum, mean_inst, nonneg, sp, sq, R_, H).items()}
+
+    @staticmethod
+    def _script(row_sums, vec_sum, mean_inst, nonneg, sp, sq, R_, H):
         return {('np.sum', 0): row_sums(0, 'sequence means', SM, R_['D_SM'], sp.split, 0),
                 ('np.sum', 1): row_sums(1, 'sequence means inside var', SM, R_['D_SM'], sp.split, 1),
                 ('np.sum', 2): row_sums(2, 'squared deviations', SV, R_['D_SV'], lambda r, t: sq(sp.split(r, t) - sp.mu(r)), 1, mean_of=1),
@@ -1034,6 +1070,265 @@ class GelmanRubin(Contract):
             return [('R-hat is the textbook value - a number, never nan - whenever the within-sequence variance is positive (got %r)' % (result,), z3.BoolVal(False))]
         r = T(result)
         return [('R-hat = sqrt(((n-1)/n W + B/n) / W) on the split chains (the non-negative root)', z3.And(r >= 0, r * r == sp.rhat2())),
+                ('the chains are not modified', z3.BoolVal(s.chains.cell.elt is s.cell_elt))]
+
+
+# ---------------------------------------------------------------- eff_sample_size for a SINGLE chain
+LS = z3.Function('LS', I, I, R)               # LS(t, k) = sum_{i<k} (x_i - mean)(x_{i+t} - mean): lag-t products of the chain's deviations
+RS = z3.Function('RS', I, R)                  # RS(k)    = sum_{1<=t<k} rho_t
+NN = z3.Function('all_rho_nonneg', I, B)      # NN(k)    = rho_t >= 0 for every 1 <= t < k
+
+
+class _Log2:
+    """np.log2(n), 1 + it, np.ceil of that, 2 ** that: only the composite 2 ** ceil(1 + log2 n) is given a value - an integer
+    P with 2n <= P < 4n (assumed arithmetic fact, sanity-tested)"""
+
+    def __init__(self, n, plus=0, ceil=False):
+        self.n, self.plus, self.ceil = n, plus, ceil
+
+    def __radd__(self, o):
+        if o != 1 or self.plus or self.ceil:
+            raise OutOfSubset('arithmetic on log2')
+        return _Log2(self.n, 1, False)
+
+    __add__ = __radd__
+
+    def __rpow__(self, base):
+        if base != 2 or not self.ceil or self.plus != 1:
+            raise OutOfSubset('power of a logarithm other than 2 ** ceil(1 + log2 n)')
+        vc = cur()
+        P = vc.fresh_int('n_padded')
+        vc.assume(P >= 2 * self.n, P < 4 * self.n)
+        return SInt(P)
+
+
+class _Spectrum:
+    """np.fft.rfft(d, P) of a real (C, n) array and what the code does to it before irfft (abs, ** 2): opaque"""
+
+    def __init__(self, src, P, absd=False, power=False):
+        self.src, self.P, self.absd, self.power = src, P, absd, power
+
+    def __pow__(self, p):
+        if p != 2 or not self.absd or self.power:
+            raise OutOfSubset('spectrum ** %r' % (p,))
+        return _Spectrum(self.src, self.P, True, True)
+
+
+class _FFT:
+    """numpy.fft, only the autocovariance idiom irfft(|rfft(d, P)|^2) (assumed contract = Wiener-Khinchin with zero padding,
+    sanity-tested): for P >= 2n - 1 entry [c, t], t < n, is sum_{i < n-t} d[c, i] d[c, i+t]"""
+
+    @staticmethod
+    def rfft(a, n=None, axis=-1):
+        a = npspec.asarray(a)
+        if a.ndim != 2 or a.kind != 'real' or n is None or axis != -1:
+            raise OutOfSubset('rfft other than of a real 2-d array with a padded length')
+        return _Spectrum(a.snapshot(), T(n))
+
+    @staticmethod
+    def irfft(sp, n=None, axis=-1):
+        if not isinstance(sp, _Spectrum) or not sp.power or n is not None:
+            raise OutOfSubset('irfft of something else than |rfft(d, P)| ** 2')
+        vc = cur()
+        src, P = sp.src, sp.P
+        rows, n_ = src.shape
+        C = conc(rows)
+        if C is None or C > 4:
+            raise OutOfSubset('FFT autocovariance model needs a small concrete number of chains')
+        vc.oblige('call-pre[autocovariance by FFT: padded length >= 2n - 1, no wrap-around]', P >= 2 * n_ - 1)
+        AC, LK = vc.fresh_fn('autocov', I, I, R), vc.fresh_fn('lagsum', I, I, I, R)
+        U = []
+        for c in range(C):
+            u = Univ(0, n_, lambda t, c=c: z3.And(AC(c, t) == LK(c, t, n_ - t),
+                                                  prefix_def(lambda k: LK(c, t, k), n_ - t, lambda k: src.at(c, k) * src.at(c, k + t))), 't')
+            vc.assume(u.q)
+            U.append(u)
+        out = SArr(Cell(lambda c, t: AC(c, t), (rows, P), 'real'))
+        vc.libcall('np.fft.autocov', dict(src=src, res=out, AC=AC, LK=LK, U=U, n=n_))
+        return out
+
+
+def _np_abs(x):
+    if isinstance(x, _Spectrum):
+        if x.absd:
+            raise OutOfSubset('abs of abs of a spectrum')
+        return _Spectrum(x.src, x.P, True, False)
+    return npspec.abs_(x)
+
+
+def _np_ceil(x):
+    if isinstance(x, _Log2):
+        return _Log2(x.n, x.plus, True)
+    raise OutOfSubset('np.ceil(%s)' % type(x).__name__)
+
+
+def _np_arange(start, stop=None, step=None):
+    if not (isinstance(stop, int) and stop == 0 and isinstance(step, int) and step == -1):
+        raise OutOfSubset('np.arange other than arange(n, 0, -1)')
+    n = zi(start)
+    return SArr(Cell(lambda i: n - i, (n,), 'int'))
+
+
+class _ColArr(SArr):
+    """a 1-d array that also answers a[:, None] (a column view; only read here)"""
+
+    def __getitem__(self, idx):
+        if isinstance(idx, tuple) and len(idx) == 2 and idx[0] == slice(None) and idx[1] is None:
+            return npspec.expand_dims(self, 1)
+        return SArr.__getitem__(self, idx)
+
+
+def _np_mean(a, axis=None):
+    """np.mean; the mean of a ONE-element 1-d array is that element (recorded as libcall 'mean1')"""
+    a_ = npspec.asarray(a)
+    if a_.ndim == 1 and axis is None and conc(a_.shape[0]) == 1 and a_.kind == 'real':
+        sn = a_.snapshot()
+        r = SReal(sn.at(0))
+        cur().libcall('mean1', dict(arr=sn, res=r))
+        return r
+    r = npspec.mean(a, axis=axis)
+    if isinstance(r, SArr) and r.ndim == 1 and type(r) is SArr:
+        r = _ColArr(r.cell, r.view, r.shape, r.perm)
+    return r
+
+
+def _atleast_2d(x):
+    r = npspec.atleast_2d(x)
+    if all(isinstance(z_, ZInt) for z_ in r.shape):
+        return r
+    sn = r.snapshot()
+    return SArr(Cell(lambda *i: sn.at(*i), tuple(ZInt(z_) for z_ in sn.shape), sn.kind))
+
+
+class EssOneChain(Contract):
+    """eff_sample_size for ONE chain (what BslSample.compute_ess and BOLFI with n_chains = 1 pass), given as a 1-d array or as
+    shape (1, N): the formula the docstring names with between-chain variance 0 -
+        W = unbiased variance of the chain, var+ = (n-1)/n W,  rho_t = 1 - (W - acov_t) / var+,
+        acov_t = sum_{i<n-t} (x_i - mean)(x_{i+t} - mean) / (n - t),  ESS = n / (1 + 2 sum_{t=1}^{T-1} rho_t),
+        T = the first lag with rho_T < 0 (or n).
+    Every sum is a definitional finite sum over the input; the FFT enters through ONE assumed library contract (_FFT)."""
+    target = 'elfi/methods/mcmc.py::eff_sample_size'
+    prop = 'C16'
+    fin = 6
+    fin_range = 8
+
+    def __init__(self, shape):
+        self.shape = shape              # '1d' | '2d'
+        self.label = '1-chain-' + shape
+
+    def setup(self, vc):
+        N = z3.Int('N')
+        vc.fin_bounds.append(N)
+        if self.shape == '1d':
+            chains = SArr(Cell(lambda t: X(0, t), (ZInt(N),), 'real'))
+        else:
+            chains = SArr(Cell(lambda c, t: X(c, t), (ZInt(z3.IntVal(1)), ZInt(N)), 'real'))
+        n, nr = N, z3.ToReal(N)
+        sq = lambda v: v * v
+        mu = lambda r: SM(r, n) / nr
+        Wv = SV(0, n) / (nr - 1)
+        vp = ((nr - 1) * Wv + 0) / nr
+        dev = lambda i: X(0, i) - mu(0)
+        rho = lambda t: 1 - (Wv - LS(t, n - t) / z3.ToReal(n - t)) / vp
+        s = ns(N=N, n=n, nr=nr, chains=chains, cell_elt=chains.cell.elt, mu=mu, Wv=Wv, vp=vp, dev=dev, rho=rho, sq=sq)
+        one = z3.IntVal(1)
+        s.R = dict(N=N >= 2, W=Wv > 0, RS1=RS(1) == 0, NN1=NN(1),
+                   D_SM=Univ(0, one, lambda r: prefix_def(lambda k: SM(r, k), n, lambda t: X(r, t)), 'r'),
+                   D_SV=Univ(0, one, lambda r: prefix_def(lambda k: SV(r, k), n, lambda t: sq(X(r, t) - mu(r))), 'r'),
+                   D_LS=Univ(1, n, lambda t: prefix_def(lambda k: LS(t, k), n - t, lambda k: dev(k) * dev(k + t)), 't'),
+                   D_RS=Univ(1, n, lambda t: RS(t + 1) == RS(t) + rho(t), 't'),
+                   D_NN=Univ(1, n, lambda t: NN(t + 1) == z3.And(NN(t), rho(t) >= 0), 't'))
+        return s, (chains,), {}
+
+    def env(self, vc):
+        fft = type('fft', (), {'rfft': _FFT.rfft, 'irfft': _FFT.irfft})
+        return dict(np=np_module(var=np_var, nan=NAN, mean=_np_mean, atleast_2d=_atleast_2d, abs=_np_abs, ceil=_np_ceil, arange=_np_arange,
+                                 log2=lambda x: _Log2(zi(x)), fft=fft))
+
+    def requires(self, s):
+        vc = cur()
+        if vc.fin is not None:
+            vc.assume(s.N == 5, *[X(0, t) == GelmanRubin.fin_x(0, t) for t in range(5)])
+        R_ = s.R
+        return [('at least two draws', R_['N']), R_['D_SM'].q, R_['D_SV'].q, R_['D_LS'].q, R_['RS1'], R_['D_RS'].q, R_['NN1'], R_['D_NN'].q,
+                ('the chain is not constant', R_['W'])]
+
+    # loop 0: `while lag < n_samples`
+    def _inv(self, s, l):
+        lag, es = T(l.lag), T(l.estimator_sum)
+        return [('1 <= lag <= n', z3.And(1 <= lag, lag <= s.n)), ('estimator_sum = sum of rho_t over 1 <= t < lag', es == RS(lag)),
+                ('every rho_t summed so far is non-negative', z3.And(NN(lag), RS(lag) >= 0))]
+
+    @property
+    def loops(self):
+        def lemmas(s, l0, l1):
+            t = T(l0.lag)          # instances at the lag of this iteration of the two defining recursions (requires)
+            return [z3.Implies(z3.And(1 <= t, t < s.n), z3.And(RS(t + 1) == RS(t) + s.rho(t), NN(t + 1) == z3.And(NN(t), s.rho(t) >= 0)))]
+        return {0: Loop(inv=self._inv, lemmas=lemmas)}
+
+    def hooks(self, s):
+        if cur().fin is not None:
+            return {}
+        n, R_ = s.n, s.R
+        one = z3.IntVal(1)
+        G0 = [R_['N']]
+        H = s.H = {}
+
+        def base_step(vc, base, r0, t0, hyps):
+            fcut(vc, 'element (r, t) of the array given to mean / var is x[r, t]', base.at(r0, t0) == X(r0, t0), hyps)
+        rs = lambda *a, **k: row_sums_hook(H, G0, n, one, lambda r, t: X(r, t), base_step, *a, **k)
+
+        def after_var(vc, rec):
+            rs(2, 'squared deviations', SV, R_['D_SV'], lambda r, t: s.sq(X(r, t) - s.mu(r)), 1, mean_of=1)(vc, rec)
+            for k in (0, 1, 2):
+                H[k].inst(vc, z3.IntVal(0))            # the three row facts at the single row, as ground facts
+
+        def autocov(vc, rec):
+            src = rec['src']
+            i0 = H[0].inst(vc, z3.IntVal(0))
+            shp = fcut(vc, 'the array transformed is 1 x n', z3.And(src.shape[0] == 1, src.shape[1] == n), G0)
+
+            def steps(i, rng):
+                fcut(vc, 'deviation at a generic index', src.at(0, i) == s.dev(i), G0 + rng + [i0, shp])
+            s.F_src = forall_intro(vc, 'the FFT is applied to the deviations of the chain from its mean', 0, n, lambda i: src.at(0, i) == s.dev(i), steps)
+
+        def lag_read(vc, rec):
+            """the bridge at the lag of this iteration: autocov[0, lag] = LS(lag, n - lag)"""
+            ac = vc.libcalls['np.fft.autocov'][0]
+            src, AC, LK, U = ac['src'], ac['AC'], ac['LK'], ac['U'][0]
+            lag = T(s.rt.loopstate[0]['head'].lag)
+            rng = z3.And(1 <= lag, lag < n)
+            vc.cut('the lag read is in [1, n)', rng)
+            iu = U.inst(vc, lag)
+            d2a = fcut(vc, 'FFT autocovariance at this lag = its lag sum (library contract, instance)', AC(0, lag) == LK(0, lag, n - lag), [iu, rng])
+            a_ = lambda k: src.at(0, k) * src.at(0, k + lag)
+            b_ = lambda k: s.dev(k) * s.dev(k + lag)
+            d2b = fcut(vc, 'recursion of the lag sum (library contract, instance)', prefix_def(lambda k: LK(0, lag, k), n - lag, a_), [iu, rng])
+            d1 = fcut(vc, 'defining recursion of the definitional lag sum at this lag', prefix_def(lambda k: LS(lag, k), n - lag, b_), [R_['D_LS'].inst(vc, lag), rng])
+
+            def steps(k, rng_k):
+                ia, ib = s.F_src.inst(vc, k), s.F_src.inst(vc, k + lag)
+                fcut(vc, 'product of deviations at a generic index', a_(k) == b_(k), rng_k + [ia, ib, rng])
+            F_pt = forall_intro(vc, 'summand of the lag sum = summand of the definition', 0, n - lag, lambda k: a_(k) == b_(k), steps)
+            L = use(stmt_sum_ext(n - lag, a_, b_, lambda k: LK(0, lag, k), lambda k: LS(lag, k)))
+            vc.assume(L)            # LemmaSumExt
+            e1 = fcut(vc, 'lag sum of the code = definitional lag sum', LK(0, lag, n - lag) == LS(lag, n - lag), [L, d1, d2b, F_pt.q, rng])
+            fcut(vc, 'autocov[0, lag] = sum of lagged products of the deviations', AC(0, lag) == LS(lag, n - lag), [e1, d2a])
+        return {k_: tolerant(h_) for k_, h_ in {
+            ('np.sum', 0): rs(0, 'chain mean', SM, R_['D_SM'], lambda r, t: X(r, t), 0),
+            ('np.sum', 1): rs(1, 'chain mean inside var', SM, R_['D_SM'], lambda r, t: X(r, t), 1),
+            ('np.sum', 2): after_var, ('np.fft.autocov', 0): autocov, ('mean1', 1): lag_read}.items()}
+
+    def witness(self, vc, model, ob):
+        return dict(fn='ess', values=[[float(GelmanRubin.fin_x(0, t)) for t in range(5)]], one_d=self.shape == '1d')
+
+    def ensures(self, s, result):
+        if not isinstance(result, SNum) or 0 not in s.rt.loopstate or 'head' not in s.rt.loopstate[0]:
+            return [('ESS is a number computed by the lag loop (got %r)' % (result,), z3.BoolVal(False))]
+        Tl = T(s.rt.loopstate[0]['head'].lag)
+        return [('ESS = n / (1 + 2 sum_{t=1}^{T-1} rho_t), rho_t = 1 - (W - acov_t)/var+, var+ = (n-1)/n W: between-chain variance 0 for a single chain',
+                 T(result) == s.nr / (1 + 2 * RS(Tl))),
+                ('T is the first lag whose rho_T is negative, or n', z3.And(1 <= Tl, Tl <= s.n, NN(Tl), z3.Or(Tl == s.n, s.rho(Tl) < 0))),
                 ('the chains are not modified', z3.BoolVal(s.chains.cell.elt is s.cell_elt))]
 
 
@@ -1642,7 +1937,7 @@ class RhatCas(CasContract):
 
 CONTRACTS = [SampleInit('plain'), SampleInit('weighted'), SamplesArray(), NSamples(), Dim(), Discrepancies(True), Discrepancies(False),
              SampleMeans(True), SampleMeans(False), SampleCIs(True), SampleCIs(False), SampleQuantiles(True), SampleQuantiles(False), SumExt(),
-             BolfiInit(), BolfireInit(), GelmanRubin(), GelmanRubin('1/100000', 'finitised-at-scale-1e-5'), RhatCas(), MonotoneCum(), LemmaAffineSum(), LemmaAffineSS(), LemmaRhatAffine(), LemmaRhatPermutation(),
+             BolfiInit(), BolfireInit(), GelmanRubin(), GelmanRubin('1/100000', 'finitised-at-scale-1e-5'), RhatCas(), EssOneChain('1d'), EssOneChain('2d'), MonotoneCum(), LemmaAffineSum(), LemmaAffineSS(), LemmaRhatAffine(), LemmaRhatPermutation(),
              NumpyToPython(), SampleObjectToDict('given'), SampleObjectToDict('default')]
 
 TRUSTED_BASE = ['pyvc engine: proxies, loop cutting, numpy spec table (np.sum / np.mean / np.average = mathematical finite sum by prefix recursion; slices, '
